@@ -4,7 +4,7 @@ from __future__ import annotations
 
 from typing import Any, List
 
-SPINES = ["arr", "obj2", "nest1", "nest2", "nest3", "deep", "objarr", "numkeys", "wrapobjarr"]
+SPINES = ["arr", "obj2", "nest1", "nest2", "nest3", "deep", "objarr", "numkeys", "wrapobjarr", "nestk", "quotekeys"]
 
 
 def build(spine: str, L: List[Any], n: int, b: List[bool]) -> Any:
@@ -62,6 +62,16 @@ def build(spine: str, L: List[Any], n: int, b: List[bool]) -> Any:
             if i < n:
                 out.append({"a": L[2 * i], "b": L[2 * i + 1]})
         return {"xs": out, "k": L[5]}
+    if spine == "nestk":
+        # the root and a candidate both have a member "k": `$` inside a nested filter must keep denoting the root
+        xs = []
+        for i in range(2):
+            if i < n:
+                xs.append({"a": L[2 + i]})
+        return {"k": L[0], "items": [{"k": L[1], "xs": xs}, {"xs": [{"a": L[0]}]}]}
+    if spine == "quotekeys":
+        # member names that need escaping in a normalized path
+        return {"it's": L[0], "x']['y": L[1], "b\\": [L[2], L[3]], "x": {"y": L[1]}}
     if spine == "numkeys":
         d = {}
         if b[0]:
